@@ -118,6 +118,11 @@ type World struct {
 
 	WriteDelay time.Duration
 	ParkN      int
+
+	// SPAfterFirst: the scripted broker keeps the session: every CONNECT with
+	// clean-session off that follows an accepted one gets session-present=true
+	SPAfterFirst bool
+	accepted     int
 }
 
 // EnablePark switches lock-site parking on for this run (driver goroutine only).
@@ -369,7 +374,8 @@ func (c *Conn) react(pkt packet.Generic) {
 			a := packet.NewConnack()
 			a.ReturnCode = packet.ConnackCode(c.Beh.Connack)
 			if a.ReturnCode == 0 {
-				a.SessionPresent = c.Beh.SessionPresent
+				a.SessionPresent = c.Beh.SessionPresent || (c.w.SPAfterFirst && c.w.accepted > 0 && !q.CleanSession)
+				c.w.accepted++
 			}
 			c.BSend(a)
 		}
